@@ -6,28 +6,19 @@ NOTES = ("Every check runs: translator -> lake build of the property's theorem m
 NOT_YET = {}
 CLAIMS = {
     "C15": {
-        "text": "PARTIAL (SentencePiece / Tokenizers converters judged per source, not modelled). Machine-checked Lean theorems: byte-level "
-                "placeholder table bijective and inverted on every byte string; <0xNN> parsing exact; the Tiktoken and Tekken converters "
-                "(after parsing) keep every source token, id and order and invent nothing; detection chain (native first; auto = explicit "
-                "iff earlier loaders reject); soundness of the decidable checker keepsCheck. Every shipped and generated source of all four "
-                "formats is converted by the real code, parsed independently, and judged by keepsCheck in the Lean driver; the Tiktoken / "
-                "Tekken models, the byte table and the byte-piece parser are compared with the implementation.",
-        "design_ref": "DESIGN.md §6 C15",
-        "note": "Partial: for SentencePiece and Tokenizers sources the theorem is about the checker, not about the converter; a converter "
-                "defect shows as a failing KEEPS verdict on a concrete source, not as a broken proof. Translation of normalizers, "
-                "pre-tokenizers, decoders and post-processors is covered behaviourally by C16 only.",
-        "technique": "Lean 4 proof over executable models (byte table, byte pieces, Tiktoken, Tekken, detection chain, checker soundness) + differential correspondence with independent source parsers",
-    },
-    "C20": {
-        "text": "PARTIAL (pyo3 glue not modelled). Machine-checked Lean theorems over a model of the wrapper as written in "
-                "packages/python/src/lib.rs: default flag off, single calls transparent, batch calls = list of single calls or first error "
-                "in order, no crash unless the core panics (excluded by C18). The real extension module, built from the working tree, is "
-                "driven under CPython on all shipped models through every constructor; every answer is compared with the core library's "
-                "and with the Lean model's.",
-        "design_ref": "DESIGN.md §6 C20",
-        "note": "Partial: argument conversion, GIL handling, serde_pyobject and the allocator are runtime glue outside the model; they are "
-                "exercised by the runs (including inputs only Python can produce) but not proved.",
-        "technique": "Lean 4 proof over a wrapper model + differential correspondence (CPython extension module vs core library vs Lean model)",
+        "text": "Machine-checked Lean theorems over models of all four converters' vocabulary paths: byte-level placeholder table "
+                "bijective and inverted on every byte string; <0xNN> parsing exact; Tiktoken from raw bytes (lines, canonical base64, "
+                "decimal ids) keeps every entry, id and order; Tekken keeps every token inside the declared size, invents nothing, "
+                "ids disjoint from specials; Tokenizers (BPE / Unigram / WordPiece) and SentencePiece (BPE / Unigram): nothing lost "
+                "except duplicates and unused pieces, nothing invented, unigram scores aligned, repair of colliding special ids, result "
+                "independent of hash iteration order; detection chain; soundness of the checker keepsCheck. Every shipped and generated "
+                "source is converted by the real code, parsed independently and judged by keepsCheck; the converter models are compared "
+                "with the implementation's output (CONVTT, CONVTK, CONVHF, CONVSP, LOADTT, BYTETAB, BYTEPIECE).",
+        "design_ref": "DESIGN.md §6 C15, §10.4",
+        "note": "PARTIAL in one respect: the translation of normalizers, pre-tokenizers, decoders and post-processors by the "
+                "SentencePiece and Tokenizers converters is not modelled (behaviourally covered by C16 on the shipped models only). "
+                "Modelling and proving the vocabulary paths found four defects in the converter (F18, F22, F23, F24), all repaired.",
+        "technique": "Lean 4 proof over executable models of the converters' vocabulary paths + differential correspondence with independent source parsers",
     },
     "C16": {
         "text": "PARTIAL. Finite part (22 convertible reference models x 3 recorded corpora): decided by evaluating the implementation and "
